@@ -565,6 +565,14 @@ class FnTranslator:
                 info.defaults[pn] = a.defaults[j]
         self.info = info
         self.param_list = params
+        # `attr_stores` (plug-in, third round): attributes of a record parameter the function assigns at the top level of
+        # its body (`self.start_time = ...`).  Their initial values are parameters (always, also when never read) and
+        # the function -- which must return `None` on every path -- returns the tuple of their final values.
+        self.attr_stores = list(self.cfg.get("attr_stores", ())) if self.outer is None else []
+        for pth in self.attr_stores:
+            if pth.split(".")[0] not in self.records:
+                self.fail(node, f"`attr_stores`: `{pth}` is not rooted at a record parameter")
+            self.record_attrs[pth] = self.param_name(pth.replace(".", "_"))
         # which list parameters are mutated?
         self.mut_params = [pn for pn, _ln, sh in params if sh[0] == "L" and self.is_mutated(pn, node.body)]
         body = list(node.body)
@@ -663,6 +671,12 @@ class FnTranslator:
 
     def ret_term(self, node, val, env):
         _k, expr, sh = val
+        if getattr(self, "attr_stores", None):
+            if sh != U or self.loop_stack or self.mut_params or self.optional_ret:
+                self.fail(node or self.node, "`attr_stores`: a `return` with a value / inside a loop / with a mutated list")
+            vals = [env.d["@" + p][0] if env.d.get("@" + p) else self.record_attrs[p] for p in self.attr_stores]
+            self.ret_shape = N if len(vals) == 1 else T(*[N for _ in vals])
+            return ("pure", vals[0] if len(vals) == 1 else "(" + ", ".join(vals) + ")")
         if self.optional_ret:
             if sh == U:
                 if self.ret_shape is None:
@@ -842,6 +856,19 @@ class FnTranslator:
             if rp is not None and self.used_as_record(targets[0].id):
                 env.d[targets[0].id] = ("<record>", ("R", rp))
                 return rest(env)
+        # store to a declared attribute of a record parameter (third round, `attr_stores`)
+        if len(targets) == 1 and isinstance(targets[0], ast.Attribute) and getattr(self, "attr_stores", None):
+            rp = self.record_path(targets[0], env)
+            if rp in self.attr_stores:
+                if st not in self.node.body or isinstance(st, ast.AugAssign):
+                    self.fail(st, "attribute store outside the top level of the function body / augmented")
+                pre, val = self.expr(value, env)
+                if val[2] != N:
+                    self.fail(st, "attribute store of something that is not a number")
+                ln = self.fresh(rp.replace(".", "_"))
+                pre.append(("letp", ln, val[1], None))
+                env.d["@" + rp] = (ln, N)
+                return self.wrap_pre(pre, rest(env))
         # subscript store  l[i] = v
         if len(targets) == 1 and isinstance(targets[0], ast.Subscript):
             return self.subscript_store(st, targets[0], value, env, rest)
@@ -1457,6 +1484,8 @@ class FnTranslator:
             if dotted not in self.record_lists:
                 self.record_lists[dotted] = self.param_name(dotted.replace(".", "_").replace("()", ""))
             return [], ("atom", self.record_lists[dotted], L(N))
+        if dotted is not None and env.d.get("@" + dotted):
+            return [], ("atom", env.d["@" + dotted][0], N)      # the value of the last store (`attr_stores`)
         if dotted is not None:
             if dotted not in self.record_attrs:
                 self.record_attrs[dotted] = self.param_name(dotted.replace(".", "_").replace("()", ""))
